@@ -36,7 +36,8 @@ def firstFailure : List (Bool × Code) → Option Code
 /-- `ValidateClaim` is exactly this sequence of checks, in this order, with these error codes:
 evidence type set, session context, session ended, minimum proofs, chain supported, node staked at
 the session height, application staked at the session height, relays within the allowance (MREL),
-application chains within the limit, session construction, node in session, claim not mature. -/
+application chains within the limit, session construction, header names the application in its
+canonical spelling, node in session, claim not mature. -/
 theorem claim_checks_in_order (h : Int) (m : MsgClaim) (e : ClaimEnv) :
     validateClaim h m e = firstFailure
       [ (decide (m.key.et = 0), Code.noEvidenceType),
@@ -49,6 +50,7 @@ theorem claim_checks_in_order (h : Int) (m : MsgClaim) (e : ClaimEnv) :
         (decide (e.maxRelays < m.total), Code.overService),
         (e.chainsOverLimit, Code.chainsOverLimit),
         (e.sessionPre.isSome, e.sessionPre.getD Code.internal),
+        (!e.headerCanonical, Code.invalidAppPubKey),
         (!e.inSession, Code.invalidSession),
         (decide (h > e.curW * e.curB + m.key.sbh), Code.expiredProofsSubmission) ] := by
   unfold validateClaim
@@ -64,27 +66,28 @@ example : validateClaim 9 (mC kRelay) envC = none := by decide
 
 /-- A claim is stored only if the transaction is well-formed and authenticated, the evidence type
 is set, the session has ended (`height > S + B − 1`), the claim is not mature (`height ≤ S + W·B`),
-the node and the application were staked at the session height, the chain is supported, the node
-is in the session, and the relays are within the application's allowance and above the minimum. -/
+the node and the application were staked at the session height, the chain is supported, the header
+spells the application key canonically, the node is in the session, and the relays are within the application's allowance and above the minimum. -/
 theorem claim_accepted_requires (s : State) (m : MsgClaim) (e : ClaimEnv) (c : Claim)
     (h : Event.accepted m.key c ∈ (deliverClaim s m e).events ∨ (deliverClaim s m e).err = none) :
     claimAcceptable s.height m e = true ∧
     e.dup = false ∧ e.vb = none ∧ e.anteOk = true ∧ (m.key.et = 1 ∨ m.key.et = 2) ∧ e.sessCtxOk = true ∧
     s.height > m.key.sbh + e.sessB - 1 ∧ e.minProofs ≤ m.total ∧ e.chainSupported = true ∧
     e.nodeFound = true ∧ e.appFound = true ∧ m.total ≤ e.maxRelays ∧ e.chainsOverLimit = false ∧
-    e.sessionPre = none ∧ e.inSession = true ∧ s.height ≤ e.curW * e.curB + m.key.sbh := by
+    e.sessionPre = none ∧ e.headerCanonical = true ∧ e.inSession = true ∧
+    s.height ≤ e.curW * e.curB + m.key.sbh := by
   rcases deliverClaim_cases s m e with ⟨_, h2, h3⟩ | ⟨_, _, _, hd, hv, ha, hval, het⟩
   · rcases h with h | h
     · rw [h2] at h; simp at h
     · exact absurd h h3
-  · obtain ⟨_, a1, a2, a3, a4, a5, a6, a7, a8, a9, a10, a11⟩ := validateClaim_none _ _ _ hval
+  · obtain ⟨_, a1, a2, a3, a4, a5, a6, a7, a8, a9, a9', a10, a11⟩ := validateClaim_none _ _ _ hval
     have a2 : s.height > m.key.sbh + e.sessB - 1 := by omega
     have a3 : e.minProofs ≤ m.total := by omega
     have a7 : m.total ≤ e.maxRelays := by omega
     have a11 : s.height ≤ e.curW * e.curB + m.key.sbh := by omega
-    refine ⟨?_, hd, hv, ha, het, a1, a2, a3, a4, a5, a6, a7, a8, a9, a10, a11⟩
+    refine ⟨?_, hd, hv, ha, het, a1, a2, a3, a4, a5, a6, a7, a8, a9, a9', a10, a11⟩
     unfold claimAcceptable
-    rcases het with het | het <;> simp [hd, hv, ha, het, a1, a4, a5, a6, a8, a9, a10] <;> omega
+    rcases het with het | het <;> simp [hd, hv, ha, het, a1, a4, a5, a6, a8, a9, a9', a10] <;> omega
 
 /-- Conversely the handler stores every claim that passes those checks (the spec is exact). -/
 theorem claim_accepted_iff (s : State) (m : MsgClaim) (e : ClaimEnv) :
@@ -96,10 +99,10 @@ theorem claim_accepted_iff (s : State) (m : MsgClaim) (e : ClaimEnv) :
     unfold claimAcceptable at h
     simp only [Bool.and_eq_true, Bool.or_eq_true, beq_iff_eq, decide_eq_true_eq, Option.isNone_iff_eq_none,
       Bool.not_eq_true'] at h
-    obtain ⟨⟨⟨⟨⟨⟨⟨⟨⟨⟨⟨⟨⟨⟨hd, hv⟩, ha⟩, het⟩, a1⟩, a2⟩, a3⟩, a4⟩, a5⟩, a6⟩, a7⟩, a8⟩, a9⟩, a10⟩, a11⟩ := h
+    obtain ⟨⟨⟨⟨⟨⟨⟨⟨⟨⟨⟨⟨⟨⟨⟨hd, hv⟩, ha⟩, het⟩, a1⟩, a2⟩, a3⟩, a4⟩, a5⟩, a6⟩, a7⟩, a8⟩, a9⟩, a9'⟩, a10⟩, a11⟩ := h
     have het0 : m.key.et ≠ 0 := by omega
     have hnot : ¬ (m.key.et ≠ 1 ∧ m.key.et ≠ 2) := by omega
-    have hval := validateClaim_of_checks s.height m e het0 a1 (by omega) (by omega) a4 a5 a6 (by omega) a8 a9 a10
+    have hval := validateClaim_of_checks s.height m e het0 a1 (by omega) (by omega) a4 a5 a6 (by omega) a8 a9 a9' a10
       (by omega)
     simp [deliverClaim, handleClaim, hval, hd, hv, ha, hnot]
 
@@ -407,6 +410,31 @@ theorem expired_claim_not_paid (fixed : Bool) (s : State) (k : ClaimKey) (c : Cl
   exact ((expired_claims_removed_unpaid s k hw).2.2.2.1 c hg hexp).1
 
 /-! ## What the code does not check -/
+
+/-- "At most once per claim" is not "at most once per session": at the last height of the window
+(`height = S + W·B`, where the proof is already possible — C31) the same key can be claimed, paid,
+claimed again and paid again without a block in between. -/
+theorem session_paid_twice_at_window_edge :
+    ∃ (s : State) (ops : List Op) (k : ClaimKey),
+      (∀ op ∈ ops, ∃ m e, op = .claim m e ∨ ∃ m' e', op = .proof m' e') ∧ WellTyped ops ∧
+      accepts k (run false s ops).2 = 2 ∧ mints k (run false s ops).2 = 2 ∧
+      (run false s ops).1.height = s.height :=
+  ⟨{ s5 with height := 9 },
+   [.claim (mC kRelay) envC, .proof ⟨kRelay, .relay⟩ envP, .claim (mC kRelay) envC, .proof ⟨kRelay, .relay⟩ envP], kRelay,
+   by
+     intro op hop
+     simp at hop
+     rcases hop with rfl | rfl | rfl | rfl
+     · exact ⟨mC kRelay, envC, Or.inl rfl⟩
+     · exact ⟨mC kRelay, envC, Or.inr ⟨_, _, rfl⟩⟩
+     · exact ⟨mC kRelay, envC, Or.inl rfl⟩
+     · exact ⟨mC kRelay, envC, Or.inr ⟨_, _, rfl⟩⟩,
+   by
+     intro op hop
+     simp at hop
+     rcases hop with rfl | rfl | rfl | rfl <;> simp [Op.typed, kRelay],
+   by decide, by decide, by decide⟩
+
 
 /-- `ValidateClaim` never asks whether `SessionBlockHeight` is the first block of a session
 (`height mod BlocksPerSession = 1`): a claim for the pseudo-session starting at height 2 of a
